@@ -211,6 +211,12 @@ class SimpleCacheCacheOutputs(Contract):
 @register
 class SimpleCacheCacheJacobian(Contract):
     targets = (P + "simple_cache.SimpleCache.cache_jacobian",)
+
+    def finding_regions(self, c):
+        # known finding: whenever the Jacobian data are stored (a miss, or a hit on an entry without Jacobian) the caller's dict is kept
+        _, _, j0 = sc(c)
+        return {"jacobian-data-is-stored": z3.Or(z3.Not(sc_hit(c)), j0.n == 0)}
+
     prop = ("C05",)
     params = {"input_data": DATA, "jacobian_data": DATA}
     modifies = ("self", "heap:arr")
